@@ -630,7 +630,12 @@ impl Compiler {
 
                 let pos_start_function = self.instructions.len();
 
-                self.compile_block_statement(body)?;
+                // a loop around the function definition is not a loop of the function body:
+                // 'stop' and 'volgende' in here must not jump to it
+                let outer_loops = std::mem::take(&mut self.loop_contexts);
+                let body_result = self.compile_block_statement(body);
+                self.loop_contexts = outer_loops;
+                body_result?;
 
                 if self.last_instruction_is(OpCode::Pop) {
                     self.remove_last_instruction();
